@@ -36,7 +36,7 @@ CLAIMS = {
              "hiding a class of a real rule; stored strategies are re-applied to the class of their own key; the extractor is told the "
              "raw root; rules inside one equivalence class are dropped and cycles connected before collapsing; the explanation path "
              "follows recorded edges. Also: an equivalence walked backwards reverses the original rule at the position of the kept child. Does NOT decide productivity (C03/C05/C11) nor that a re-applied strategy returns the same "
-             "children (C14).",
+             "children (C14). Also (round 8): a hidden class is walked for every equivalence chain through it; RuleDBBase.add does not give up on a test of what the stores already hold.",
         note="Trusted: ast, control model. Assumes strategies are deterministic.",
     ),
     "C03": dict(
@@ -57,14 +57,14 @@ CLAIMS = {
     "C04": dict(
         technique="ast provenance/alignment data-flow + who-may-record call-site rule",
         design='DESIGN.md sections 3 (engines P, T) and 4 (C04)',
-        text='Static analysis of necessary structural clauses, not the behaviour: every (start, ends, rule) triple that reaches a rule database is computed from that same rule object (guarded start label, order-preserving unfiltered child labels); children are dropped only under possibly_empty AND is_empty and every other label is kept exactly once; strategy applications sit inside StrategyDoesNotApply handlers that neither yield nor record; the (class, label) arguments handed on belong together, including the class remembered per label in the expansion loop; emptiness has only sanctioned writers; class storage is append-only and compressed exactly once. what a factory yields is used as it is (a ready rule itself, a strategy applied to the class being expanded); every strategy kind takes missing children from decomposition_function; the possibly_empty question is asked of the rule passed in. Holds for all inputs because it is a property of every path of the enumerated functions; says nothing about whether strategies honour their contracts.',
+        text='Static analysis of necessary structural clauses, not the behaviour: every (start, ends, rule) triple that reaches a rule database is computed from that same rule object (guarded start label, order-preserving unfiltered child labels); children are dropped only under possibly_empty AND is_empty and every other label is kept exactly once; strategy applications sit inside StrategyDoesNotApply handlers that neither yield nor record; the (class, label) arguments handed on belong together, including the class remembered per label in the expansion loop; emptiness has only sanctioned writers; class storage is append-only and compressed exactly once. what a factory yields is used as it is (a ready rule itself, a strategy applied to the class being expanded); every strategy kind takes missing children from decomposition_function; the possibly_empty question is asked of the rule passed in. Holds for all inputs because it is a property of every path of the enumerated functions; says nothing about whether strategies honour their contracts. Also (round 8): an argument named like an optional parameter of a method, left at its default by the call, is not passed under another parameter (J7 for method calls).',
         note="Trusted: CPython ast, the hand-written resolver/guard model (DESIGN.md 2.1, appendix B). Assumes "
              "strategies honour possibly_empty / StrategyDoesNotApply contracts.",
     ),
     "C05": dict(
         technique='label-kind (raw vs representative) abstract interpretation, evaluation-order / staleness rule, cache-invalidation dominance rule, purity and bisection conformance rules',
         design='DESIGN.md sections 3 (engine K) and 4 (C05)',
-        text='Decides: every label handed to pruning / proof-tree code with a representative-keyed dictionary is a representative; every producer of a key up to equivalence sorts; rules inside one equivalence class are dropped by an equivalence test; one-way cycles are connected unconditionally before rules are collapsed and the cycle search has no early exit; every mutation of the stores resets the cached pruned dictionary and nobody else mutates them; a representative is never used across a call that may merge classes (evaluation order included); the one-way table is normalised and loss-free; the finders do not modify the dictionary they are handed; depth-first generators thread the seen-set; the smallest-tree search is a correct bisection. Also: every single-child rule reaches the equivalence database as an edge whatever its kind; the one-way table is merged, not assigned, under every construction form. Does NOT decide that prune computes the fixed point.',
+        text='Decides: every label handed to pruning / proof-tree code with a representative-keyed dictionary is a representative; every producer of a key up to equivalence sorts; rules inside one equivalence class are dropped by an equivalence test; one-way cycles are connected unconditionally before rules are collapsed and the cycle search has no early exit; every mutation of the stores resets the cached pruned dictionary and nobody else mutates them; a representative is never used across a call that may merge classes (evaluation order included); the one-way table is normalised and loss-free; the finders do not modify the dictionary they are handed; depth-first generators thread the seen-set; the smallest-tree search is a correct bisection. Also: every single-child rule reaches the equivalence database as an edge whatever its kind; the one-way table is merged, not assigned, under every construction form. Does NOT decide that prune computes the fixed point. Also (round 8): any local set that takes the neighbour inside connect_cycles" neighbour loop is a push-time mark; a result memo of the tree search names every argument the work reads.',
         note="Trusted: ast, kind tables read from the code (section 3). Partial by design.",
     ),
     "C06": dict(
@@ -74,7 +74,7 @@ CLAIMS = {
              "representatives and is carried over every merge, merges link roots and keep weights in step, two-way edges are recorded "
              "both ways, one-way edges enter a normalised loss-free table and are merged only along a closed cycle, the cycle search is "
              "never skipped, explanation paths follow recorded edges from the first label to the second. Also: an equivalence walked backwards reverses the original rule at the position of the kept child; every single-child rule is recorded as an edge. Does NOT decide completeness "
-             "of the cycle search (that every strongly connected component is found).",
+             "of the cycle search (that every strongly connected component is found). Also (round 8): RuleDBBase.add files by the rule that arrives, not by what the stores hold; Optional[int] results are tested with `is None`.",
         note="Trusted: ast, kind inference (self[x] is a representative inside EquivalenceDB). Partial by design: 'exactly' is not decided.",
     ),
     "C07": dict(
@@ -86,13 +86,13 @@ CLAIMS = {
     "C08": dict(
         technique="inverse-CDF walk shape analysis (draw range, accumulator, comparison normal form)",
         design='DESIGN.md sections 3 (engines U, V, M) and 4 (C08)',
-        text="Decides that each threshold walk is an exact inverse-CDF walk over the weights it accumulates (draw range/comparison pair, accumulate-before-compare, weight and sampler use the same translated parameters), that N is the rule's own count, that the preimage pick is uniform, that the refusal guard dominates sampling and is evaluated per query, that the parameter split of a product offers each child the intersection of its own interval with what the rest can absorb, that queries never write constructor tables through an alias, and that derived rule forms map through the same slot both ways. Also: the same dispatch rule for the object maps; an absent maximum bounds nothing in the reliance profile. Does not decide that the weights are true counts.",
+        text="Decides that each threshold walk is an exact inverse-CDF walk over the weights it accumulates (draw range/comparison pair, accumulate-before-compare, weight and sampler use the same translated parameters), that N is the rule's own count, that the preimage pick is uniform, that the refusal guard dominates sampling and is evaluated per query, that the parameter split of a product offers each child the intersection of its own interval with what the rest can absorb, that queries never write constructor tables through an alias, and that derived rule forms map through the same slot both ways. Also: the same dispatch rule for the object maps; an absent maximum bounds nothing in the reliance profile. Does not decide that the weights are true counts. Also (round 8): the bounds of the remaining children are computed inside the recursive helper of _valid_compositions.",
         note="Trusted: ast; arithmetic normalisation of comparison idioms (appendix B).",
     ),
     "C09": dict(
         technique="variable-namespace kind inference (parent vs child statistic names / positions)",
         design='DESIGN.md sections 3 (engines V, S0, M6, U7) and 4 (C09)',
-        text="Decides namespace and position-space discipline of the four constructors and the derived constructors: child terms are re-keyed through that child's own fresh multi-valued table in the right direction, per-child maps are paired with per-child terms, zero sets are parent names, queries do not mutate the tables; products count over the complete, bounded enumeration utils.compositions (S0) with all provider combinations, and parameter splits are interval intersections. Also: one complete level of terms is computed before it is appended; a static parameter map that a constructor overrides is bound by the name of that constructor. Does not decide the arithmetic of the recurrences.",
+        text="Decides namespace and position-space discipline of the four constructors and the derived constructors: child terms are re-keyed through that child's own fresh multi-valued table in the right direction, per-child maps are paired with per-child terms, zero sets are parent names, queries do not mutate the tables; products count over the complete, bounded enumeration utils.compositions (S0) with all provider combinations, and parameter splits are interval intersections. Also: one complete level of terms is computed before it is appended; a static parameter map that a constructor overrides is bound by the name of that constructor. Does not decide the arithmetic of the recurrences. Also (round 8): constructors keep the strategy's parameter dictionaries as given; the parameter map a Quotient resolves to assigns and does not accumulate.",
         note="Trusted: ast, kind tables (section 3, engine V). Partial by design.",
     ),
     "C10": dict(
@@ -101,14 +101,14 @@ CLAIMS = {
         text="Decides the property itself for the constructors and rule forms defined in the package, for every "
              "rule arity up to K and every flipped index: each provider call is bounded by n minus the declared "
              "shift of that position (affine certificate per obligation). Does not cover user-defined constructors "
-             "or arities above K.",
+             "or arities above K. Also (round 8): the table method keeps its books after every increase (F2, F3, F5-F8), on which the 'hence' clause rests.",
         note="Assumes minimum_size_of_object() >= 0 and that no statistic is named 'n'. Trusted: the evaluator "
              "(appendix A) and its summary of utils.compositions, itself re-derived (rule S0).",
     ),
     "C11": dict(
         technique='enumeration/exhaustiveness, sibling agreement, memo-purity and alias-discipline rules over forest.py and every forest_key implementation',
         design='DESIGN.md sections 3 (rules E, W4) and 4 (C11)',
-        text='Decides: every bucket a rule can be filed under is minimised, REVERSE first; all forest_key call sites use the same (get_label, is_empty) pair and every reverse form is considered under exactly the is_reversible() guard, at insertion and at recovery; a recomputed rule is returned only when its key equals the requested one; factory-made rules are probed under a StrategyDoesNotApply handler; every key of the pumping sub-universe is filed (no projection-based skip); a key is never memoised on the rule across class databases; aliases of owned containers are updated in place; the whole pack is replayed. Also: the three forest_key forms build (parent label, child labels in order, shifts) alike and the shifts of a derived rule are position by position those of its own children; a needed key found in the rule cache is not recomputed. Does not decide minimality/productivity of the extracted set.',
+        text='Decides: every bucket a rule can be filed under is minimised, REVERSE first; all forest_key call sites use the same (get_label, is_empty) pair and every reverse form is considered under exactly the is_reversible() guard, at insertion and at recovery; a recomputed rule is returned only when its key equals the requested one; factory-made rules are probed under a StrategyDoesNotApply handler; every key of the pumping sub-universe is filed (no projection-based skip); a key is never memoised on the rule across class databases; aliases of owned containers are updated in place; the whole pack is replayed. Also: the three forest_key forms build (parent label, child labels in order, shifts) alike and the shifts of a derived rule are position by position those of its own children; a needed key found in the rule cache is not recomputed. Does not decide minimality/productivity of the extracted set. Also (round 8): the table rules() answers needed keys from holds each rule under its own forest key (traced to its writers); no class is tested after its base class in an isinstance chain of the key builders.',
         note="Trusted: ast. Partial by design.",
     ),
     "C12": dict(
@@ -123,20 +123,20 @@ CLAIMS = {
              "(arity, leaves = two atoms that agree, constructors before recursion) and the one-sided equivalence steps are wired "
              "alike on both sides (every domain-only step moves the forward image on and is reachable while the codomain's rule is "
              "already a leaf); what the matcher remembers is keyed by pairs of nodes and released on every way out of a step; no object map of the derived rule forms is bypassed by a copy of the base delegate; the inverse permutation is a closed form known to be the inverse; the JSON maps keep the orientation; the derived rules' maps use the same slot both ways. Does NOT "
-             "decide that the image is the right object (needs the strategies' own maps) nor reflexivity / symmetry as such.",
+             "decide that the image is the right object (needs the strategies' own maps) nor reflexivity / symmetry as such. Also (round 8): a rule form that overrides forward_map / backward_map below the class its indexed_* version comes from is reached by that version through self.forward_map / self.backward_map; the image of a leaf is generated from rule.comb_class.",
         note="Trusted: ast, side inference (the side of an index is the position of the recursive call's argument it occurs in). "
              "Assumes strategy maps are mutually inverse and constructor.equiv is an equivalence relation.",
     ),
     "C13": dict(
         technique='label-kind abstract interpretation + writer/reader convention agreement by side inference + two-sided acceptance rule',
         design='DESIGN.md sections 3 (engines K, B) and 4 (C13)',
-        text="Decides that the specification-building site of the parallel finder tells the extractor the raw start label of the very class the specification is rooted at; that every label handed to representative-keyed structures is a representative; that a stored strategy is re-applied to the class of its own key; that partial extractors index children through the order map; that the equivalence path starts at a raw label; that the finder's permutation convention agrees with its reader, its backtracking offers every unused position once, and its second search settles a pair only when both sides are assigned; that the matcher follows chains of equivalence rules; that an exhausted queue is a failure only after has_specification() was asked again inside the handler; that the rule paths of two equivalence classes are compared pairwise only at equal length and on every visit of an already placed pair. that the bookkeeping stacks of both finders are balanced on every way out of a step; that no call is pinned to the base finder where the Eq-path finder overrides; that store keys are (label, tuple of labels). Necessary for totality; does not decide validity / isomorphism of the outputs.",
+        text="Decides that the specification-building site of the parallel finder tells the extractor the raw start label of the very class the specification is rooted at; that every label handed to representative-keyed structures is a representative; that a stored strategy is re-applied to the class of its own key; that partial extractors index children through the order map; that the equivalence path starts at a raw label; that the finder's permutation convention agrees with its reader, its backtracking offers every unused position once, and its second search settles a pair only when both sides are assigned; that the matcher follows chains of equivalence rules; that an exhausted queue is a failure only after has_specification() was asked again inside the handler; that the rule paths of two equivalence classes are compared pairwise only at equal length and on every visit of an already placed pair. that the bookkeeping stacks of both finders are balanced on every way out of a step; that no call is pinned to the base finder where the Eq-path finder overrides; that store keys are (label, tuple of labels). Necessary for totality; does not decide validity / isomorphism of the outputs. Also (round 8): a representative stored by ParallelInfo is read after the expansion; the first complete child matching of a rule pair ends the backtracking; no label without a left-hand side is skipped before its equivalence path is walked.",
         note="Trusted: ast, kind tables (appendix B).",
     ),
     "C14": dict(
         technique="key-shape inference + mapping-protocol completeness + normal-form sibling agreement",
         design="DESIGN.md sections 3 (engines T', T, K8) and 4 (C14)",
-        text='Decides that every store access uses an (int, tuple) key, that both store implementations provide every operation used and agree on the key normal form and on the two-way predicate, that recomputation replays the whole pack, returns a strategy only for the requested key, applies it to the class of its own key, and only calls total ClassDB operations. Also: the pack handed to the recomputing stores is not a one-shot iterable. Does not decide that recomputation returns the same strategy when several apply.',
+        text='Decides that every store access uses an (int, tuple) key, that both store implementations provide every operation used and agree on the key normal form and on the two-way predicate, that recomputation replays the whole pack, returns a strategy only for the requested key, applies it to the class of its own key, and only calls total ClassDB operations. Also: the pack handed to the recomputing stores is not a one-shot iterable. Does not decide that recomputation returns the same strategy when several apply. Also (round 8): the recomputing store keeps every key it is given, the replay skips a (label, strategy) pair only for "does not apply" / wrong kind, and every exception AbstractRule.children raises is caught where the replay reads rule.children.',
         note="Trusted: ast.",
     ),
     "C15": dict(
@@ -159,25 +159,25 @@ CLAIMS = {
     "C17": dict(
         technique="state-closure picklability/equality analysis + time-taint reachability over the call graph",
         design='DESIGN.md sections 3 (engine R, K5/K6/K18) and 4 (C17)',
-        text="Decides that no attribute in the searcher's state closure is unpicklable, that every class in the closure compares by value, that time-dependent control can only interrupt between work packets, that an optional time limit is compared with None (0 is a limit), that the queue never takes a label out of a set by position (set order does not survive pickling), that the memory-saving store can read every stored rule back (lazy StrategyDoesNotApply handled per item), that no one-shot iterable is kept in an attribute (declared Iterable parameters are materialised, no call site hands a generator to a keeping parameter), that a class defining __hash__ defines __eq__, that classes are marked verified from the dictionary stored as pruned and queries leave no defaultdict entries behind, that there is no module-level or class-level mutable state, and that specification queries leave the state they read unchanged (cache reset discipline, loss-free one-way table, finders do not modify the dictionary). Does not decide that the continuation visits the same work in the same order.",
+        text="Decides that no attribute in the searcher's state closure is unpicklable, that every class in the closure compares by value, that time-dependent control can only interrupt between work packets, that an optional time limit is compared with None (0 is a limit), that the queue never takes a label out of a set by position (set order does not survive pickling), that the memory-saving store can read every stored rule back (lazy StrategyDoesNotApply handled per item), that no one-shot iterable is kept in an attribute (declared Iterable parameters are materialised, no call site hands a generator to a keeping parameter), that a class defining __hash__ defines __eq__, that classes are marked verified from the dictionary stored as pruned and queries leave no defaultdict entries behind, that there is no module-level or class-level mutable state, and that specification queries leave the state they read unchanged (cache reset discipline, loss-free one-way table, finders do not modify the dictionary). Does not decide that the continuation visits the same work in the same order. Also (round 8): an __eq__ comparing instance dictionaries leaves the back-reference to the searcher out by the name link_searcher actually sets.",
         note="Trusted: ast, attribute-type table, call graph over resolved callees.",
     ),
     "C18": dict(
         technique="writer/reader key-table agreement per to_jsonable/from_dict pair + equality-purity rule",
         design='DESIGN.md sections 3 (engine J) and 4 (C18)',
-        text="Decides that the key set written equals the key set consumed for every serialisable class, that every constructor setting is written and travels back to the same parameter, that derived forms are rebuilt through their own constructor, that nothing but settings can enter the __dict__ equality compares, that the bijection's nested maps keep their orientation and every pair, (two readers of maps written by one helper agree), that a rule rebuilt by re-applying its strategy passes nothing but the saved class, that a class compared by __dict__ rebuilds list-saved attributes as fixed containers to the saved depth, that the specification writes every rule it holds and makes up an empty rule only for a class without one after is_empty() was asserted. Also: ids of dumped classes are positions in the array, labels are assigned after the rules have their final form, __hash__ comes with __eq__. Does not decide behavioural equality of reloaded objects.",
+        text="Decides that the key set written equals the key set consumed for every serialisable class, that every constructor setting is written and travels back to the same parameter, that derived forms are rebuilt through their own constructor, that nothing but settings can enter the __dict__ equality compares, that the bijection's nested maps keep their orientation and every pair, (two readers of maps written by one helper agree), that a rule rebuilt by re-applying its strategy passes nothing but the saved class, that a class compared by __dict__ rebuilds list-saved attributes as fixed containers to the saved depth, that the specification writes every rule it holds and makes up an empty rule only for a class without one after is_empty() was asserted. Also: ids of dumped classes are positions in the array, labels are assigned after the rules have their final form, __hash__ comes with __eq__. Does not decide behavioural equality of reloaded objects. Also (round 8): from_dict hands the rules to the constructor with the constant group_equiv=False.",
         note="Trusted: ast. User classes outside the repository are not covered.",
     ),
     "C19": dict(
         technique='exit-condition and copy-before-share escape analysis of expand_verified / expand_comb_class',
         design='DESIGN.md sections 3 (rules X, E3, A1/A2) and 4 (C19)',
-        text='Decides the exit condition of expand_verified (only the specification just re-examined is returned, the loop never reads the original), that every rule object of the original passes through copy before reaching the new database, that the new search is rooted and seeded from the same root with aligned labels and the expanded class excluded, that verified labels stay in the queue, that every reverse form is inserted, that the attempt without reverse rules falls back to the attempt with them exactly on SpecificationNotFound, and that the inner search records each rule under the label of its own parent (a rule is skipped as trivial only when its own parent is its only child). Also: a class-or-label argument is brought to a class before it is used, the default pack refusal is the exception that is skipped, a cached rule is not recomputed. Does not decide enumeration preservation.',
+        text='Decides the exit condition of expand_verified (only the specification just re-examined is returned, the loop never reads the original), that every rule object of the original passes through copy before reaching the new database, that the new search is rooted and seeded from the same root with aligned labels and the expanded class excluded, that verified labels stay in the queue, that every reverse form is inserted, that the attempt without reverse rules falls back to the attempt with them exactly on SpecificationNotFound, and that the inner search records each rule under the label of its own parent (a rule is skipped as trivial only when its own parent is its only child). Also: a class-or-label argument is brought to a class before it is used, the default pack refusal is the exception that is skipped, a cached rule is not recomputed. Does not decide enumeration preservation. Also (round 8): what the search raises on an exhausted universe is what expand_comb_class catches; a memo across the rounds of expand_verified is not keyed by a part of the object the value is asked of.',
         note="Trusted: ast.",
     ),
     "C20": dict(
         technique='variable-namespace kind inference on substitution tables + fallback discipline + symbolic evaluation of get_equation over Laurent polynomials',
         design='DESIGN.md sections 3 (engines V, S/V9) and 4 (C20)',
-        text="Decides that every substitution table is {child var: product of the parent vars mapped onto it} built from that child's own table and paired with that child's function, that unsupported constructors refuse with NotImplementedError and the only fallback is the original rule's equation, and - by abstract interpretation over Laurent polynomials in opaque function symbols - that the four constructors' equations for classes without statistics have the forms f0+f1+..., f0-f1-..., f0*f1*..., f0/(f1*...) for every arity up to K and flipped index. Also: child_idx of an equivalence rule is the position of the kept child in the original rule; overridden static parameter maps are bound by name. Does not decide equations with statistics nor genf selection.",
+        text="Decides that every substitution table is {child var: product of the parent vars mapped onto it} built from that child's own table and paired with that child's function, that unsupported constructors refuse with NotImplementedError and the only fallback is the original rule's equation, and - by abstract interpretation over Laurent polynomials in opaque function symbols - that the four constructors' equations for classes without statistics have the forms f0+f1+..., f0-f1-..., f0*f1*..., f0/(f1*...) for every arity up to K and flipped index. Also: child_idx of an equivalence rule is the position of the kept child in the original rule; overridden static parameter maps are bound by name. Does not decide equations with statistics nor genf selection. Also (round 8): get_label alone writes the label tables (labels stay dense); taylor_expand rejects a candidate only when computing its series fails.",
         note="Trusted: ast. Partial by design.",
     ),
 }
